@@ -96,8 +96,8 @@ def _size_arg(e, free=False, f=None):
     return p
 
 
-def trailers(ctx, db):
-    rid = ctx.rule('C19.trailer', 'LINEAR+SIBLINGS', 'policies with a trailer: requested size = sz + k with k >= size of the trailer on every allocating path; the trailer lives at offset sz in alloc '
+def trailers(ctx, db, rid_='C19.trailer'):
+    rid = ctx.rule(rid_, 'LINEAR+SIBLINGS', 'policies with a trailer: requested size = sz + k with k >= size of the trailer on every allocating path; the trailer lives at offset sz in alloc '
                    'and is read at offset sz in dealloc; an in-place write of the trailer is guarded by a comparison implying sz + 1 <= region size; sizes handed back equal sizes '
                    'requested; the learned size equals the allocated size', floor=6)
     T = _ptracer(db)
@@ -234,8 +234,8 @@ def _offset_of(f, tr, i):
     return form
 
 
-def pairing(ctx, db):
-    rid = ctx.rule('C19.pairing', 'COUNT', 'allocation/release pairing selected by the policy\'s own marker: mtsafe - heap fallback stores a null owner, dealloc deletes exactly on the null-owner edge '
+def pairing(ctx, db, rid_='C19.pairing'):
+    rid = ctx.rule(rid_, 'COUNT', 'allocation/release pairing selected by the policy\'s own marker: mtsafe - heap fallback stores a null owner, dealloc deletes exactly on the null-owner edge '
                    'and releases the busy flag exactly on the other; stack_storage - flag 1 with ::operator new, flag 0 in place, dealloc deletes exactly on the flag-set edge; '
                    'reusable_storage - the old block is deleted before a larger one is allocated, and in the destructor and move-assignment; promise_extra_storage - one placement '
                    'construction in alloc, one explicit destructor call before the release in dealloc', floor=6)
@@ -370,8 +370,8 @@ def pairing(ctx, db):
         ctx.ob(rid, f, f['key'], ok, 'extra object destroyed exactly once before the block is released', desc='promise_extra_storage::dealloc does not destroy the extra object once before the release', inst=f['inst'])
 
 
-def reuse(ctx, db):
-    rid = ctx.rule('C19.reuse', 'GUARDED+ATOMIC', 'reusable_storage::alloc allocates exactly on the edge sz > capacity (equal sizes reuse: no allocation after warm-up) and records the allocated size as '
+def reuse(ctx, db, rid_='C19.reuse'):
+    rid = ctx.rule(rid_, 'GUARDED+ATOMIC', 'reusable_storage::alloc allocates exactly on the edge sz > capacity (equal sizes reuse: no allocation after warm-up) and records the allocated size as '
                    'the capacity; reusable_storage_mtsafe::alloc claims the shared block with one atomic exchange(true) on the busy flag and uses the block exactly on the edge where '
                    'the exchange returned false', floor=3)
     T = _ptracer(db)
@@ -431,8 +431,8 @@ def reuse(ctx, db):
         ctx.ob(rid, f, f['key'], bad is None, 'shared block iff the exchange returned false' + ('' if not bad else ' -- ' + bad), desc=bad)
 
 
-def routing(ctx, db):
-    rid = ctx.rule('C19.routing', 'SIBLINGS', 'custom_allocator_base: both placement operator new forms return storage.alloc(sz) with the unchanged size, operator delete calls '
+def routing(ctx, db, rid_='C19.routing'):
+    rid = ctx.rule(rid_, 'SIBLINGS', 'custom_allocator_base: both placement operator new forms return storage.alloc(sz) with the unchanged size, operator delete calls '
                    'Allocator::dealloc(ptr, sz) with the unchanged pointer and size', floor=2)
     seen = set()
     for f in db.need('cocls::custom_allocator_base::operator new'):
